@@ -324,16 +324,22 @@ macro_rules! arch_spec {
                         _ => {}
                     }
                 }
-                if borrow {
+                // the key is an arbitrary expression: it must be evaluated exactly once
+                let mut evals = 0u32;
+                let r = if borrow {
                     let w: &$W = &*w;
-                    with_key!(key, $A, |k| ecs_find_borrow!(w, k, |e: &Entity<$A>, d: &EntityDirectAny, $($f: &mut $C),*| {
+                    with_key!(key, $A, |k| ecs_find_borrow!(w, { evals += 1; k }, |e: &Entity<$A>, d: &EntityDirectAny, $($f: &mut $C),*| {
                         full_visit((*e).into_any(), *d, &mut [$(ColRef::W($f)),*], write)
                     }))
                 } else {
-                    with_key!(key, $A, |k| ecs_find!(w, k, |e: &Entity<$A>, d: &EntityDirectAny, $($f: &mut $C),*| {
+                    with_key!(key, $A, |k| ecs_find!(w, { evals += 1; k }, |e: &Entity<$A>, d: &EntityDirectAny, $($f: &mut $C),*| {
                         full_visit((*e).into_any(), *d, &mut [$(ColRef::W($f)),*], write)
                     }))
+                };
+                if evals != 1 {
+                    crate::rt::violate("C01", "find-key-expression-evaluations", format!("the key expression of a find macro was evaluated {} times", evals));
                 }
+                r
             }
             fn iter_full(w: &mut $W, borrow: bool, write: Option<(usize, usize, u64)>) -> Vec<(Row, Option<EntityDirectAny>)> {
                 let mut out = Vec::new();
@@ -702,6 +708,12 @@ pub mod wa {
         ent = abits(*e), dir = None, cols = [ColRef::W(a)],
         other = None);
 
+    // two OneOf parameters in one closure, resolved independently per matched archetype
+    site!(S12, WA, w,
+        params = [e: &EntityAny, x: &OneOf<CompB, CompZ>, y: &mut OneOf<CompS, CompU>],
+        ent = abits(*e), dir = None, cols = [ColRef::R(x), ColRef::W(y)],
+        other = Some(&mut w.arch_p as &mut dyn ArchDyn));
+
     world_spec!(WA, "WA",
         archs = [(0, ArchP, arch_p), (1, ArchQ, arch_q), (2, ArchR, arch_r), (3, ArchT, arch_t), (4, ArchV, arch_v), (5, ArchX, arch_x)],
         sites = [
@@ -717,6 +729,7 @@ pub mod wa {
             (9, S9, SiteInfo { name: "S9 |&mut CompA, &EntityAny|", matches: &[0, 1, 3], cols: &[&[0], &[0], &[0]], muts: &[true], has_dir: false, other: None }),
             (10, S10, SiteInfo { name: "S10 |&EntityAny, &mut OneOf<CompB, CompL>, &mut CompH|", matches: &[2, 3], cols: &[&[0, 2], &[2, 1]], muts: &[true, true], has_dir: false, other: Some(0) }),
             (11, S11, SiteInfo { name: "S11 |&EntityAny, #[cfg(any())] &EntityDirect<ArchT>, &mut CompA, #[cfg(any())] &CompS|", matches: &[0, 1, 3], cols: &[&[0], &[0], &[0]], muts: &[true], has_dir: false, other: None }),
+            (12, S12, SiteInfo { name: "S12 |&EntityAny, &OneOf<CompB, CompZ>, &mut OneOf<CompS, CompU>|", matches: &[2, 3], cols: &[&[0, 1], &[3, 4]], muts: &[false, true], has_dir: false, other: Some(0) }),
         ],
         extra = {
             fn acc_double_use(&self, iter: bool, key: Option<Key>, k: &mut dyn FnMut()) -> Option<(usize, usize)> {
